@@ -89,8 +89,21 @@ fn seeds(ep: &str) -> Vec<Vec<u8>> {
         "id_room" => s(&["!abc:example.org", "!abcdefghijklmnopqrstuvwxyzABCDEFGHIJKLMNOPQ"]),
         "id_alias" | "id_room_or_alias" => s(&["#room:example.org", "!id:example.org:8448"]),
         "id_event" => s(&["$abc:example.org", "$Rqnc-F-dvnEYJTyHq_iKxU2bZ1CI92-kuZq3a5lr5Zg"]),
-        "id_server" => s(&["example.org", "[2001:db8::1]:8448", "1.2.3.4:65535"]),
-        "id_mxc" => s(&["mxc://example.org/abcDEF123", "mxc://[::1]:80/x"]),
+        "id_server" => {
+            let mut v = s(&["example.org", "[2001:db8::1]:8448", "1.2.3.4:65535"]);
+            for n in [255usize, 256, 65_535] {
+                v.push(format!("{}.example", "a".repeat(n - 8)).into_bytes());
+            }
+            v
+        }
+        "id_mxc" => {
+            // incl. syntactically valid server names around the lengths where one-byte indices wrap
+            let mut v = s(&["mxc://example.org/abcDEF123", "mxc://[::1]:80/x"]);
+            for n in [249usize, 250, 251, 253, 255, 256, 300] {
+                v.push(format!("mxc://{}.example/media", "a".repeat(n - 8)).into_bytes());
+            }
+            v
+        }
         "id_key" => s(&["ed25519:abc_123", "ed25519:1"]),
         "id_device_key" => s(&["curve25519:DEVICE", "signed_curve25519:AAAAHQ", "ed25519:abcdefghijklmnopqrstuvwxyzABCDEFGHIJKLMNOPQ"]),
         "id_misc" => s(&["11", "abc_DEF-1.2=3", "org.example.v1"]),
@@ -512,6 +525,10 @@ fn oracle(c: &WireCase, cx: &mut CaseCtx) -> Result<(), String> {
             let mut v = vec![];
             for s in seeds(ep) {
                 if let Reply::Ok(out) = sup.worker.call(&frame(ep, &s), Duration::from_secs(60)) {
+                    let text = String::from_utf8_lossy(&out);
+                    if text.starts_with("PANIC:") || text.starts_with("LEAK:") {
+                        return Err(format!("entry point {ep} fails on its own seed {:?}: {text}", String::from_utf8_lossy(&s).chars().take(120).collect::<String>()));
+                    }
                     v.push((s, out));
                 }
             }
